@@ -1,10 +1,107 @@
-(* C30 — property theorems only. *)
-From Coq Require Import List NArith Bool Arith.
+(* C30 — property theorems only.  Each is closed by `exact <lemma>` and followed by Print Assumptions. *)
+From Coq Require Import List NArith Bool Arith Permutation.
 From Verif.Common Require Import Packet PolicyRef.
-From Verif.C30 Require Import Model Spec Proofs.
+From Verif.C30 Require Import Model Spec ProofsCidr ProofsRule ProofsTier.
 Import ListNotations.
 Open Scope N_scope.
 
-Theorem c30_split_never_empty : forall A (size : nat) (l : list A), split_list size l <> [].
-Proof. exact split_list_nonempty. Qed.
-Print Assumptions c30_split_never_empty.
+(* MAIN.  For every IP-set store, chunk size, tier (or profile list) of policies in the domain (Spec.in_domain:
+   supported criteria only, at most one IP-set id per side, services rules on their own and egress only, every
+   policy known to the policy manager, < 64000 rules), direction, end-of-tier action and IPv4 connection:
+   evaluating the HNS ACL rules produced by AddOrReplacePolicySet + GetPolicySetRules by priority — some rule can
+   win and EVERY matching rule of the lowest priority number has that action — gives exactly the verdict of the
+   reference semantics (Common/PolicyRef.tier_verdict over Spec.sets_sem): Allow / Block / pass, with the tier's
+   default at the end.  Chunking of address and port lists (any chunk size > 0), CIDR/IP-set intersection through
+   IntersectCIDRs, the services (ip,port set) short-circuit, skipped log / IPv6 / no-op / missing-set rules and the
+   uint16 priority arithmetic are all inside the statement. *)
+Theorem c30_same_verdict : forall st chunk pols inbound eot_drop p,
+  in_domain st chunk pols inbound = true -> packet_ok p = true ->
+  hns_gives (tier_hns st chunk pols inbound eot_drop) inbound p (expected st pols inbound eot_drop p) = true.
+Proof. intros. apply tier_same_verdict; assumption. Qed.
+Print Assumptions c30_same_verdict.
+
+(* Rules that share a priority share their action, so HNS's own tie-break cannot matter ... *)
+Theorem c30_same_priority_same_action : forall st chunk pols inbound eot_drop x y,
+  in_domain st chunk pols inbound = true ->
+  In x (tier_hns st chunk pols inbound eot_drop) -> In y (tier_hns st chunk pols inbound eot_drop) ->
+  h_prio x = h_prio y -> h_act x = h_act y.
+Proof.
+  intros st chunk pols inbound eot x y Hd. apply pw_same_prio.
+  apply (tier_same_verdict st chunk pols inbound eot (PK 0 0 0 0 0) Hd eq_refl).
+Qed.
+Print Assumptions c30_same_priority_same_action.
+
+(* ... and the rule list may be handed to HNS in any order: the verdict by priority is the same. *)
+Theorem c30_same_action_reorder_safe : forall st chunk pols inbound eot_drop p rules',
+  in_domain st chunk pols inbound = true -> packet_ok p = true ->
+  Permutation (tier_hns st chunk pols inbound eot_drop) rules' ->
+  hns_gives rules' inbound p (expected st pols inbound eot_drop p) = true.
+Proof.
+  intros st chunk pols inbound eot p rules' Hd Hp Hperm.
+  rewrite (hns_gives_perm _ _ inbound p _ Hperm). apply tier_same_verdict; assumption.
+Qed.
+Print Assumptions c30_same_action_reorder_safe.
+
+(* One rule: some HNS rule made from it matches a connection iff the policy rule does (errors = no rules),
+   for every chunk size; the produced rules carry the rule's action and direction. *)
+Theorem c30_rule_exact : forall st inbound chunk r p,
+  wf_sets st = true -> (chunk <> 0)%nat -> supported_rule inbound r = true -> packet_ok p = true ->
+  match rule_to_hns st inbound chunk r with
+  | ConvOk l => existsb (fun h => hmatch inbound h p) l = rule_matches (sets_sem st) r p
+                /\ exists a, act_of r = Some a /\ good_rules inbound a l
+  | ConvErr _ => rule_matches (sets_sem st) r p = false \/ r_action r = Log
+  end.
+Proof. exact rule_sem. Qed.
+Print Assumptions c30_rule_exact.
+
+(* Splitting a list into chunks and taking the cross product of the chunks is the original rule. *)
+Theorem c30_chunk_cross_product : forall inbound p prio act proto (n : nat) la ra lp rp, (n <> 0)%nat ->
+  existsb (fun h => hmatch inbound h p)
+    (flat_map (fun a => flat_map (fun b => flat_map (fun c =>
+        map (fun d => mkH prio (dir_of inbound) act proto a c b d) (split_list n rp))
+        (split_list n ra)) (split_list n lp)) (split_list n la))
+  = hmatch inbound (mkH prio (dir_of inbound) act proto la ra lp rp) p.
+Proof.
+  intros. rewrite cross_product_sem by assumption. rewrite hmatch_eq. cbn [h_dir h_proto h_laddrs h_raddrs h_lports h_rports].
+  rewrite hdir_eqb_refl. reflexivity.
+Qed.
+Print Assumptions c30_chunk_cross_product.
+
+(* iputils.IntersectCIDRs: an address lies in some output CIDR iff it lies in a CIDR of each input list. *)
+Theorem c30_intersect_cidrs : forall xs ys x, Forall ok4 xs -> Forall ok4 ys ->
+  existsb (fun c => in_cidr c V4 x) (intersect_cidrs xs ys)
+  = existsb (fun c => in_cidr c V4 x) xs && existsb (fun c => in_cidr c V4 x) ys.
+Proof. exact intersect_cidrs_sem. Qed.
+Print Assumptions c30_intersect_cidrs.
+
+(* FINDING (model witness, replayed on the real code by the kind:rule-services-plus stream): outside the domain guard
+   `services_alone` the short-circuit drops the rule's other criteria.  An egress rule
+   {Deny, protocol UDP, destination services s} with s = {10.1.0.1 tcp/80} blocks the TCP connection to 10.1.0.1:80
+   although the rule (protocol UDP) does not match it. *)
+Theorem c30_services_with_protocol_refuted : exists st r p,
+  oracle_rule false r = true /\ packet_ok p = true /\
+  rule_matches (sets_sem st) r p = false /\
+  match rule_to_hns st false CHUNK r with ConvOk l => existsb (fun h => hmatch false h p) l = true | ConvErr _ => False end.
+Proof.
+  exists [(10, SetIPPorts [(C4 167837697 32, 6, 80)])], (RS Deny None (Some 17) [] [] [] [] [] [] [10]),
+         (PK 6 167772161 167837697 40000 80).
+  vm_compute. repeat split; reflexivity.
+Qed.
+Print Assumptions c30_services_with_protocol_refuted.
+
+(* Non-vacuity: a two-policy inbound tier with a CIDR+IP-set intersection, three port entries, chunk size 2
+   (so the first rule is split), a services rule on the egress side, and priority bumps. *)
+Example c30_example_domain :
+  in_domain ex_sets 2 ex_pols true = true /\ in_domain ex_sets 2 ex_pols false = true.
+Proof. vm_compute. split; reflexivity. Qed.
+Example c30_example_rules :
+  map (fun h => (h_prio h, h_act h, length (h_raddrs h), h_lports h)) (tier_hns ex_sets 2 ex_pols true true)
+  = [(1000, HAllow, 2%nat, [(80, 80); (443, 443)]); (1000, HAllow, 2%nat, [(8080, 8090)]);
+     (1001, HBlock, 0%nat, []); (1002, HAllow, 0%nat, [(53, 53)]); (1003, HBlock, 0%nat, [])].
+Proof. vm_compute. reflexivity. Qed.
+Example c30_example_verdicts :
+  map (fun p => expected ex_sets ex_pols true true p)
+      [PK 6 167772161 5 1000 8085; PK 6 167772500 5 1000 80; PK 17 9 5 53 53; PK 6 167772999 5 1 80]
+  = [HAllow; HAllow; HBlock; HBlock]
+  /\ expected ex_sets ex_pols false false (PK 6 1 167837953 5 80) = HPass.
+Proof. vm_compute. split; reflexivity. Qed.
